@@ -11,11 +11,21 @@
     sessions, and compared with what the accessory end received (after decryption) and with the
     transport.write/writelines calls observed; read-target sets exported by TLC are compared with
     IpPairing.get_characteristics.
+(B') histories of ONE connection object (spec/http/HttpHostHistory: connect, request, loss, automatic
+    reconnect landing on ANOTHER advertised address - IPv4 / IPv6 / scoped IPv6 in every order of 2..3
+    (thorough: ..4) connections, first request on the first or only on the second connection): TLC checks
+    HostIsCurrent on the model and exports every route with the request head the specification prescribes per
+    connection; each is replayed on insecure and secure sessions (SimNet tcp_script steers where the reconnect
+    lands) and compared byte for byte.
 (C) code -> spec: every request of every session - including the library's own pair-verify and
     the pairing API (get/put_characteristics, subscribe, unsubscribe, identify, list/add/remove
     pairing, image, accessories) and seeded random JSON values with floats / escapes / unicode -
     is validated by TLC against HttpRequestFormat_Trace (format, single call, payload content
-    modulo object key order).
+    modulo object key order), always against the host of the connection the request ARRIVED on.
+    Values the fast JSON encoder may refuse (integers outside [-2^63, 2^64-1], nesting deeper than
+    254 levels, unpaired surrogates - inside nested containers, through put_json/post_json,
+    put_characteristics, subscribe/unsubscribe ids, image) are included: "the call raises and nothing
+    is written" and "a canonical compact request is written" are both accepted, anything else is not.
 """
 from __future__ import annotations
 
@@ -469,6 +479,9 @@ def run(ctx):
                "JSON bodies are split into tokens by an independent tokenizer in harness/c09_driver.py; numbers with "
                "fractions/exponents and string escapes are taken verbatim from orjson (checked only for absence of "
                "white space between tokens and for decoding back to the value passed)",
+               "a call that raises without writing anything (e.g. a value the JSON encoder refuses) is outside C09; "
+               "values nested deeper than 40 levels are shipped to TLC as the flat token sequence the tokenizer "
+               "scanned instead of a tree (JSON reader nesting limit)",
                "one transport call = one call of write()/writelines() on the asyncio socket transport; how the kernel "
                "segments it is outside the library")
     tmp = tempfile.mkdtemp(prefix="c09_")
